@@ -10,7 +10,7 @@ for prop in sorted(os.listdir(root)):
     for k in sorted(os.listdir(pd)):
         d = os.path.join(pd, k)
         if not os.path.isfile(os.path.join(d, 'patch.diff')): continue
-        res = '/tmp/seed_results/%s_%s.txt' % (prop, k)
+        res = os.path.join(os.environ.get('RESDIR', '/tmp/seed_results'), '%s_%s.txt' % (prop, k))
         ver = open(res + '.verify').read().strip() if os.path.exists(res + '.verify') else ''
         if 'clean_demo=pass patched_demo=fail patched_suite=pass' not in ver:
             print('SKIP (not confirmed)', prop, k, ver); continue
